@@ -180,6 +180,8 @@ def run_case(seed, i, tier):
     extra = [p for p in sorted(t.files) if p.startswith("outside/")]
     if extra and rng.random() < 0.5:
         args.insert(rng.randrange(len(args) + 1), rng.choice(extra))
+    if args and rng.random() < 0.15:
+        args.insert(rng.randrange(len(args) + 1), rng.choice(args))      # the same directory / file named twice
     nonlog_explicit = [p for p in sorted(t.files) if p.rsplit("/", 1)[-1] in NONLOG_NAMES and not p.startswith("outside/")]
     if nonlog_explicit and rng.random() < 0.4:
         args.append(rng.choice(nonlog_explicit))
